@@ -32,8 +32,8 @@ ASSUMPTIONS = [
 
 def _nontrivial(fs):
     for seg in fs['segments']:
-        many = len(seg['entries']) >= 2 or len(seg['widths']) >= 2 or seg['nchunks'] >= 2
-        off = any(s['off'] != 0 for e in seg['entries'] for s in e['scalers'])
+        many = len([e for e in seg['entries'] if e.get('hdr') == 'daqmx']) >= 2 or len(seg['widths']) >= 2 or seg['nchunks'] >= 2
+        off = any(s['off'] != 0 for e in seg['entries'] if e.get('hdr') == 'daqmx' for s in e['scalers'])
         if many and off:
             return True
     return False
@@ -144,6 +144,9 @@ def check(case, rec):
     for seg in fs['segments']:
         rec.label('buffers=%d' % len(seg['widths']), 'chunks=%d' % seg['nchunks'], 'be' if seg['be'] else 'le')
         for e in seg['entries']:
+            if e.get('hdr') != 'daqmx':
+                rec.label('relisted_without_data')
+                continue
             rec.label('kind=' + e['kind'], 'chan=' + ('raw' if e['chan_type'] == 'raw' else 'typed'),
                       'scalers=%d' % len(e['scalers']))
     ok, tf = rec.guard('eager:read', lambda: TdmsFile.read(io.BytesIO(data)))
@@ -170,7 +173,7 @@ def check(case, rec):
         vals = {}
         skip = set()
         for p, eo in exd.items():
-            ent = next((e for e in last['entries'] if e['path'] == p), None)
+            ent = next((e for e in last['entries'] if e['path'] == p and e.get('hdr') == 'daqmx'), None)
             if ent is None:
                 lens[p] = eo['len']
                 vals[p] = eo['scalers']
